@@ -198,6 +198,26 @@ def str_method(I: Interp, recv: VStr, name: str, args: list[V], kwargs: dict[str
             return AsciiBytes(recv.t)
         if name == "strip" and not args:
             return VStr(t=strip_term(I, recv.t))
+        if name in ("strip", "lstrip", "rstrip") and len(args) <= 1 and (
+                not args or (isinstance(args[0], VStr) and args[0].s is not None)):
+            chars = args[0].s if args else None  # type: ignore[union-attr]
+            return VStr(t=strip_chars_term(recv.t, name, chars))
+        if name == "replace" and len(args) == 2 and all(
+                isinstance(a, VStr) and a.s is not None for a in args) \
+                and len(args[0].s) == 1:  # type: ignore[union-attr]
+            old, new = args[0].s, args[1].s  # type: ignore[union-attr]
+            t = z3.simplify(recv.t)
+            parts = list(t.children()) if z3.is_app(t) and \
+                t.decl().kind() == z3.Z3_OP_SEQ_CONCAT else [t]
+            out = []
+            for p in parts:
+                if z3.is_string_value(p):
+                    out.append(z3.StringVal(p.as_string().replace(old, new)))
+                elif z3.is_app(p) and p.decl().eq(HEX) and old not in _HEXDIGITS:
+                    out.append(p)  # a hex payload holds no such character
+                else:
+                    out.append(REPLACE1(p, z3.StringVal(old), z3.StringVal(new)))
+            return VStr(t=out[0] if len(out) == 1 else z3.Concat(*out))
     if name in ("format", "join", "lower", "upper", "strip", "replace", "title", "ljust",
                 "rjust", "zfill", "capitalize", "removeprefix", "removesuffix", "lstrip",
                 "rstrip", "expandtabs", "center"):
@@ -206,6 +226,49 @@ def str_method(I: Interp, recv: VStr, name: str, args: list[V], kwargs: dict[str
 
 
 STRIP = z3.Function("STRIP", z3.StringSort(), z3.StringSort())
+STRIPC = z3.Function("STRIPC", z3.StringSort(), z3.StringSort(), z3.StringSort(),
+                     z3.StringSort())  # (text, side, chars): a strip that may eat payload
+_HEXDIGITS = set("0123456789abcdef")
+REPLACE1 = z3.Function("REPLACE1", z3.StringSort(), z3.StringSort(), z3.StringSort(),
+                       z3.StringSort())
+
+
+def strip_chars_term(t: Any, side: str, chars: str | None) -> Any:
+    """str.strip/lstrip/rstrip([chars]) on hex ++ literal terms: a *character set* is removed
+    from the end(s).  Literal pieces are stripped exactly; a hex payload stops the stripping
+    when the set holds no hex digit; when it does (e.g. lstrip("0x")) the payload itself may be
+    eaten - the result is then an uninterpreted term (nothing is known about it)."""
+    t = z3.simplify(t)
+    parts = list(t.children()) if z3.is_app(t) and t.decl().kind() == z3.Z3_OP_SEQ_CONCAT \
+        else [t]
+    cs = set(chars) if chars is not None else set(" \t\n\r\x0b\x0c")
+
+    def one_side(ps: list[Any], left: bool) -> list[Any] | None:
+        ps = list(ps)
+        while ps:
+            p = ps[0] if left else ps[-1]
+            if z3.is_string_value(p):
+                lit = p.as_string()
+                new = lit.lstrip("".join(cs)) if left else lit.rstrip("".join(cs))
+                if new:
+                    ps[0 if left else -1] = z3.StringVal(new)
+                    return ps
+                ps.pop(0 if left else -1)
+                continue
+            if z3.is_app(p) and p.decl().eq(HEX):
+                return ps if not (cs & _HEXDIGITS) else None
+            return None
+        return ps
+    res: list[Any] | None = parts
+    if side in ("strip", "lstrip"):
+        res = one_side(res, True)
+    if res is not None and side in ("strip", "rstrip"):
+        res = one_side(res, False)
+    if res is None:
+        return STRIPC(t, z3.StringVal(side), z3.StringVal(chars if chars is not None else " "))
+    if not res:
+        return z3.StringVal("")
+    return res[0] if len(res) == 1 else z3.Concat(*res)
 
 
 def strip_term(I: Interp, t: Any) -> Any:
